@@ -129,7 +129,7 @@ def expand(p, alphabet):
             q.values.append(Value(name, vt, pre + name + ext, i))
             out.append(q)
     step_inputs = [('data', None)] + [('val', v) for v in p.file_values()]
-    for kind in ('step1', 'step2', 'stepao', 'stepcmd'):
+    for kind in ('step1', 'step2', 'stepao', 'step2ao', 'stepcmd'):
         if kind not in alphabet:
             continue
         for ik, iv in step_inputs:
@@ -139,12 +139,16 @@ def expand(p, alphabet):
                 inp = repr('d%d.in' % i)
             else:
                 inp = iv.var
-            if kind == 'step2':
+            if kind in ('step2', 'step2ao'):
                 names = ['g%da.txt' % i, 'g%db.txt' % i]
+                ao = ', always_outdated=True' if kind == 'step2ao' else ''
                 q.lines.append("g%d = build_step(%r, cmd=['gen', build_step.output, '--', "
-                               "build_step.input], files=[%s])" % (i, names, inp))
-                q.values.append(Value('g%d[0]' % i, FILE, names[0], i))
-                q.values.append(Value('g%d[1]' % i, FILE, names[1], i))
+                               "build_step.input], files=[%s]%s)" % (i, names, inp, ao))
+                for j in (0, 1):
+                    v = Value('g%d[%d]' % (i, j), FILE, names[j], i)
+                    q.values.append(v)
+                    if ao:
+                        q.always.append(v)
             elif kind == 'stepcmd':
                 if ik == 'data':
                     inp = 'generic_file(%s)' % inp
@@ -230,7 +234,7 @@ def expand(p, alphabet):
     return out
 
 
-FULL = ['obj', 'exe', 'slib', 'shlib', 'vshlib', 'step1', 'step2', 'stepao', 'stepcmd', 'copy', 'alias',
+FULL = ['obj', 'exe', 'slib', 'shlib', 'vshlib', 'step1', 'step2', 'stepao', 'step2ao', 'stepcmd', 'copy', 'alias',
         'command', 'test', 'testarg', 'default', 'install']
 
 
